@@ -17,7 +17,9 @@ PARTIAL = {"WM.C07.refines_dict": "update_document is covered only when unambigu
                                   "is false (update_all_full_false is the witness). add_field is covered only for a *fresh* "
                                   "field name (OpOK.addField): remove_field f followed by add_field f without an optimising "
                                   "commit in between would make physically retained data of f visible again and is outside "
-                                  "the theorem. The conclusion is about content and doc_count; the posting read path is "
+                                  "the theorem (with an optimising commit in between the name is fresh again: "
+                                  "WM.C06.readd_after_optimize; the model mirrors the retained data and the check compares "
+                                  "both cases with whoosh). The conclusion is about content and doc_count; the posting read path is "
                                   "postings_exact",
            "WM.C07.unique_invariant": "the key discipline admits only add/update/delete calls (Op.plain): histories with "
                                       "un-delete (which can resurrect a second document of a key) or schema changes are not "
@@ -30,7 +32,10 @@ PARTIAL = {"WM.C07.refines_dict": "update_document is covered only when unambigu
                                      "dump after every cancelled or failed session), not by this theorem"}
 RULE = ("model-based writer histories (1-10 sessions of add/update/delete by number, term, query/"
         "undelete/add_field/remove_field ending in commit(NO_MERGE|MERGE_SMALL|OPTIMIZE|CLEAR), cancel or an "
-        "exception inside `with`), several unique-field configurations; non-trivial = the history deletes a "
+        "exception inside `with`), several unique-field configurations (keys include the empty string, which an ID "
+        "field indexes as the term b''), schemas with a pure COLUMN field and a dynamic (glob) field; every 12th world "
+        "removes a field, optimises (1..3 segments, with/without a deletion, with/without additions) and adds the name "
+        "again; after every commit(optimize=True) the segment files must hold nothing of a non-schema field; non-trivial = the history deletes a "
         "committed document or updates an existing key and commits it; distinct = distinct world")
 ASSUMPTIONS = [
     "a query passed to delete_by_query denotes the predicate C01 assigns to it (only Term/Every/And/Or/top-level "
@@ -67,6 +72,13 @@ def _world_for(seed_tuple):
         w = io.gen_topk_world(rng)
         cfg = io.default_config()
         cfg["blocklimit"] = rng.choice([1, 2, 3, 4])
+        cfg["compound"] = rng.random() < 0.7
+        return w, cfg
+    if i % 12 == 8:
+        # remove_field + optimize on 1..3 segments, then the name is added again
+        w, _ = io.gen_purge_world(rng)
+        cfg = io.default_config()
+        cfg["blocklimit"] = rng.choice([1, 2, 128])
         cfg["compound"] = rng.random() < 0.7
         return w, cfg
     if i % 12 == 5:
@@ -250,6 +262,7 @@ def check_case(ctx, pid, case, reply, label):
         if spec_eq_model:
             _against_spec(ctx, where, tables, ms["spec"], exp_spec, d)
         _reader_consistency(ctx, where, tables, d)
+        optimize_purges(ctx, where, rs["end"], d)
         if d["has_deletions"]:
             ctx.stat("commit-with-deletions")
         ctx.stat("segments:%d" % min(d["nsegments"], 6))
@@ -268,7 +281,12 @@ def _reader_consistency(ctx, where, tables, d):
                       "reader.column_reader(f)[docnum] differs from the segment's own column row")
     names = set(io.FIELD_ORDER)
     exp = io.expected_terminfo(tables, d["layout"], set(f for f, _ in d["terminfo"]))
+    # a field that was removed and added again: which physical documents still carry it depends on the merges
+    # in between (the model knows, this per-document oracle does not) - compared through the model's postings only
+    readded = set(op[1] for ops, _ in where.get("world", {}).get("sessions", []) for op in ops if op[0] == "remf")
     for key in sorted(d["terminfo"]):
+        if key[0] in readded:
+            continue
         got = d["terminfo"][key]
         want = exp.get(key)
         if want is None or isinstance(got, str):
@@ -286,6 +304,25 @@ def _reader_consistency(ctx, where, tables, d):
         if (got[2], got[3]) != (want[2], want[3]) or got[4] != want[4]:
             ctx.violation("MultiReader.term_info:min/max length, max weight", dict(where, term=key), want[2:5], got[2:5],
                           "combined min/max length or max weight differ from the postings")
+            break
+
+
+def optimize_purges(ctx, where, end, d, single=True):
+    """after commit(optimize=True): at most one segment, no deleted document left in it, and nothing of a field
+    that is not in the schema (terms, stored values) in its files"""
+    if list(end) != ["commit", "optimize"] or "physical" not in d:
+        return
+    ctx.stat("optimize-commit-checked")
+    # (single=False: MpWriter(multisegment=True) adopts its sub-writers' segments next to the optimised one)
+    if (single and len(d["layout"]) > 1) or any(deleted for _, deleted, _ in d["layout"]):
+        ctx.violation("optimize:leaves several segments or deleted documents", where, "<= 1 segment, no deletions",
+                      [(c, dl) for c, dl, _ in d["layout"]], "commit(optimize=True) did not compact the index")
+    for left in d["physical_unknown"]:
+        if left:
+            ctx.stat("optimize-after-remove_field")
+            ctx.violation("optimize:data of a removed field left in the segment", dict(where, fields=left), [], left,
+                          "after remove_field and commit(optimize=True) the segment still holds terms or stored "
+                          "values of a field that is not in the schema")
             break
 
 
@@ -355,7 +392,9 @@ def _lean_batch(ctx, cases, family="c07"):
         if "crash" in c:
             continue
         c["tables"] = io.WorldTables(c["world"])
-        lines.append(c["tables"].lean_request(io.concrete_sessions(c["real"]), 1, family))
+        # (a front-end whose numbering the SegmentWriter model does not predict: deletions by key)
+        free = c["cfg"].get("frontend", "plain") != "plain"
+        lines.append(c["tables"].lean_request(io.concrete_sessions(c["real"], free), 0 if free else 1, family))
         idx.append(i)
     replies = ctx.driver.ask(lines)
     out = {}
@@ -365,7 +404,7 @@ def _lean_batch(ctx, cases, family="c07"):
 
 
 def run(ctx):
-    n = ctx.budget(900, 7000)
+    n = ctx.budget(800, 7000)
     corpus = io.corpus_items(ID)
     ctx.stat("corpus-cases", len(corpus))
     seeds = corpus + [(ID, ctx.seed, ctx.tier, i) for i in range(n)]
